@@ -77,3 +77,14 @@ prop("C10",
      "Termination and memory use in general (only the specific loop/allocation shapes above are decided); panics inside third-party "
      "libraries; nil dereferences other than those implied by the length facts.",
      COMMON_ASSUME)
+
+prop("C14",
+     "Sibling cross-check of the four independent type→serializer generators (cpp/binary typeRwFunction+typeDefinitionRwFunction, "
+     "python/binary and matlab/binary typeSerializer+typeDefinitionSerializer, python/ndjson typeConverter+typeDefinitionConverter). "
+     "A guarded-emission extractor recovers each function's decision table from the type-checked AST (guards = model-shape predicates on "
+     "the path incl. early exits; emission = template + argument expressions with local variables, closures and loops resolved); the "
+     "tables are mapped to canonical tokens/roles and must equal one shared plan: routine per type shape, element/key/value/length/"
+     "shape arguments in the right roles, union cases and array dimensions in declaration order, null case → NONE, enum base default int32. "
+     "Deviations are allowed only as per-back-end table entries with a reason (C++ frames streams at step level; MATLAB reverses the shape list).",
+     "What the runtime routine named by a token does; byte-level layout (needs execution). Record field order is decided by rule G3.",
+     COMMON_ASSUME + ["the template→token tables in plan.go name the runtime routines correctly (cross-checked against the runtime files by the C03 link rule)"])
